@@ -467,7 +467,13 @@ pub fn join_decorated(toks: &[String], rng: &mut Rng) -> String {
                 have_separator = true;
             }
             for _ in 0..k {
-                match rng.below(9) {
+                match rng.below(10) {
+                    // the rest of what Unicode (and the lexer's `\s`) calls white space: form feed, vertical
+                    // tab, NEL, no-break space, line and paragraph separators, em and ideographic space
+                    9 => {
+                        s.push(['\u{c}', '\u{b}', '\u{85}', '\u{a0}', '\u{2028}', '\u{2029}', '\u{2003}', '\u{3000}', '\u{1680}', '\u{202f}'][rng.below(10)]);
+                        have_separator = true;
+                    }
                     0 | 1 => {
                         s.push(' ');
                         have_separator = true;
